@@ -17,9 +17,9 @@
 } @*/
 #include "c14_sv.h"
 /* loop invariant for an arbitrary slot j: constructed prefix [0,pos) == other's prefix, the rest still RAW; other's slot j LIVE below other.size */
-#define SPEC_INV(j) ((j) >= CAP || (((j) < pos ? (self->_data[j].g_state == ELEM_LIVE && self->_data[j].v == other->_data[j].v) \
-                                               : self->_data[j].g_state == ELEM_RAW) && \
-                                    ((j) >= other->m_size || other->_data[j].g_state == ELEM_LIVE)))
+#define SPEC_INV(j) ((j) >= CAP || (((j) < pos ? (ELEM_ST(&self->_data[j]) == ELEM_LIVE && ELEM_V(&self->_data[j]) == ELEM_V(&other->_data[j])) \
+                                               : ELEM_ST(&self->_data[j]) == ELEM_RAW) && \
+                                    ((j) >= other->m_size || ELEM_ST(&other->_data[j]) == ELEM_LIVE)))
 #define C14_HAVE_SV
 #include "cxx/sv.c"
 #include "c14_harness.h"
@@ -34,7 +34,7 @@ void harness(void)
     c14_sv_any(&o, m, vals);
     c14_sv_fresh(&v);
     ELEM *o_storage = o._data, *storage = v._data;
-    ELEM o_k = {0, 0};
+    ELEM o_k; ELEM_SET(&o_k, ELEM_RAW, 0);
     if (k < cap) o_k = o._data[k];
 
     static_vector_ctor_copy(&v, &o);
@@ -43,10 +43,10 @@ void harness(void)
     V(__CPROVER_assert(v.m_size == m && SV_SIZE_OK(&v), "size' == other.size() <= N");)
     V(__CPROVER_assert(o.m_size == m, "other keeps its size");)
     if (k < cap) {
-        if (k < m) V(__CPROVER_assert(v._data[k].v == o_k.v, "element k is a copy of other[k]");)
-        V(__CPROVER_assert(o._data[k].v == o_k.v, "other's elements keep their values");)
+        if (k < m) V(__CPROVER_assert(ELEM_V(&v._data[k]) == ELEM_V(&o_k), "element k is a copy of other[k]");)
+        V(__CPROVER_assert(ELEM_V(&o._data[k]) == ELEM_V(&o_k), "other's elements keep their values");)
         L(__CPROVER_assert(SV_SLOT_OK(&v, k), "SV: slots below m_size LIVE, the others RAW");)
-        L(__CPROVER_assert(o._data[k].g_state == o_k.g_state, "other's elements keep their lifetime state");)
+        L(__CPROVER_assert(ELEM_ST(&o._data[k]) == ELEM_ST(&o_k), "other's elements keep their lifetime state");)
     }
     CANARY("copy ctor end reachable");
 }
